@@ -52,6 +52,7 @@ type rdbKeySpec struct {
 	Exp  string     `json:"exp"`  // "" none | "future" | "past" | "futsec" | "pastsec" (seconds opcode)
 	Idle int64      `json:"idle"` // < 0 absent
 	Freq int        `json:"freq"` // < 0 absent
+	Drop bool       `json:"drop,omitempty"` // the scenario's author expects the configured filter to drop this key (cross-checked)
 }
 
 type rdbCfg struct {
@@ -63,6 +64,8 @@ type rdbCfg struct {
 	Policy   string `json:"policy,omitempty"`   // KeyExists: "" = replace | ignore | error
 	Bisync   bool   `json:"bisync,omitempty"`   // bidirectional replay (rdbReplayBisync, one MULTI/EXEC unit per entry)
 	PipeSize int    `json:"pipesize,omitempty"` // config.RdbPipeSize for this execution (0 = shipped value)
+	Filter   string `json:"filter,omitempty"`   // "" (db 5 + prefix flt: black-listed) | prefix-black | prefix-white | slot-white | db-black
+	FilterDB int    `json:"filterdb,omitempty"` // the black-listed database of Filter db-black
 }
 
 func (c rdbCfg) policy() string {
@@ -84,6 +87,13 @@ func (c rdbCfg) mapDB(db int) int {
 	case "map31":
 		if db == 3 {
 			return 1
+		}
+	case "map1739":
+		switch db {
+		case 1:
+			return 7
+		case 3:
+			return 9
 		}
 	case "all0":
 		return 0
@@ -121,8 +131,69 @@ func (c rdbCfg) outputConfig() RedisOutputConfig {
 	switch c.DbMode {
 	case "map31":
 		oc.TargetDbMap = map[int]int{3: 1}
+	case "map1739":
+		oc.TargetDbMap = map[int]int{1: 7, 3: 9}
 	case "all0":
 		oc.TargetDb = 0
+	}
+	return oc
+}
+
+// Filter kinds of rdbCfg.Filter ("" = the fixed default: database 5 black-listed,
+// key prefix "flt:" black-listed).
+const (
+	rdbKeepPrefix = "keep:"
+)
+
+// rdbFiltered is the reference evaluation of the configured filter for one snapshot key.
+func (scn rdbScenario) rdbFiltered(db int, key string) bool {
+	switch scn.Cfg.Filter {
+	case "prefix-black":
+		return strings.HasPrefix(key, rdbFltPrefix)
+	case "prefix-white":
+		return !strings.HasPrefix(key, rdbKeepPrefix)
+	case "slot-white":
+		for _, s := range scn.keptSlots() {
+			if s == ref.HashSlotS(key) {
+				return false
+			}
+		}
+		return true
+	case "db-black":
+		return db == scn.Cfg.FilterDB
+	}
+	return db == rdbBlackDB || strings.HasPrefix(key, rdbFltPrefix)
+}
+
+// keptSlots: the white-listed slots of a slot-white scenario = slots of the keys not marked Drop.
+func (scn rdbScenario) keptSlots() []int {
+	seen := map[int]bool{}
+	var out []int
+	for _, k := range scn.Keys {
+		if !k.Drop && !seen[ref.HashSlotS(k.Key)] {
+			seen[ref.HashSlotS(k.Key)] = true
+			out = append(out, ref.HashSlotS(k.Key))
+		}
+	}
+	sort.Ints(out)
+	return out
+}
+
+func (scn rdbScenario) outputConfig() RedisOutputConfig {
+	oc := scn.Cfg.outputConfig()
+	switch scn.Cfg.Filter {
+	case "prefix-black":
+		oc.Filter = config.FilterConfig{KeyFilter: &config.FilterKeyConfig{PrefixKeyBlacklist: []string{rdbFltPrefix}}}
+	case "prefix-white":
+		oc.Filter = config.FilterConfig{KeyFilter: &config.FilterKeyConfig{PrefixKeyWhitelist: []string{rdbKeepPrefix}}}
+	case "slot-white":
+		var ranges config.DoubleSliceUint16
+		for _, s := range scn.keptSlots() {
+			ranges = append(ranges, []uint16{uint16(s), uint16(s)})
+		}
+		oc.Filter = config.FilterConfig{SlotFilter: &config.FilterSlotConfig{KeySlotWhitelist: ranges}}
+	case "db-black":
+		oc.Filter = config.FilterConfig{DbBlacklist: []int{scn.Cfg.FilterDB}}
 	}
 	return oc
 }
@@ -272,7 +343,10 @@ func rdbBuild(scn rdbScenario, now int64) (*rdbBuilt, error) {
 		val := rdbToValue(c.Val, rdbStreamVer(k.Enc))
 		val.ExpireAt = at
 		e := &rdbExpect{Spec: k, Case: c, TargetDB: scn.Cfg.mapDB(k.DB), Value: val, Past: at != 0 && at <= now,
-			Filtered: k.DB == rdbBlackDB || strings.HasPrefix(k.Key, rdbFltPrefix)}
+			Filtered: scn.rdbFiltered(k.DB, k.Key)}
+		if scn.Cfg.Filter != "" && e.Filtered != k.Drop {
+			return nil, fmt.Errorf("key %q: scenario says drop=%v but the reference filter evaluation says %v", k.Key, k.Drop, e.Filtered)
+		}
 		b.Expect = append(b.Expect, e)
 		if _, dup := b.ByKey[k.Key]; dup {
 			return nil, fmt.Errorf("key name %q used twice in one scenario", k.Key)
@@ -347,7 +421,7 @@ func rdbRun(scn rdbScenario, built *rdbBuilt, ch *mc.Chooser, hooks *rdbHooks) *
 	srv.PlanRef().Park = hooks == nil || !hooks.NoPark
 
 	out := &rdbOutcome{Srv: srv, StartMs: time.Now().UnixMilli()}
-	ro := NewRedisOutput(scn.Cfg.outputConfig())
+	ro := NewRedisOutput(scn.outputConfig())
 	out.Output = ro
 	g := newGate()
 	if hooks != nil && hooks.Feed != nil {
@@ -833,6 +907,12 @@ func rdbOracle(prefix string, scn rdbScenario, built *rdbBuilt, out *rdbOutcome)
 			continue
 		}
 		if got == nil {
+			for db := 0; db < 16; db++ {
+				if db != e.TargetDB && srv.Get(db, e.Spec.Key) != nil {
+					return mc.Violation("a snapshot key was written into another database than the mapped one", prefix+":wrong-database",
+						detail(map[string]interface{}{"key": e.Spec.Key, "source_db": e.Spec.DB, "mapped_db": e.TargetDB, "found_in_db": db, "path": path}))
+				}
+			}
 			return mc.Violation("snapshot key missing on the target", prefix+":missing:"+sh, detail(map[string]interface{}{"key": e.Spec.Key, "db": e.TargetDB, "path": path}))
 		}
 		rdbNormalise(e.Value, got)
